@@ -315,3 +315,19 @@ Theorem C05_creation_establishes_invariant : forall colname col D key ty db u o1
   p_err resp = None /\ JInv col D key ty (mkLs (mkPs db' [mkPc u 1 1 [] []]) []).
 Proof. exact creation_establishes_invariant. Qed.
 Print Assumptions C05_creation_establishes_invariant.
+
+(* ... and a local call that succeeds is the local step of (8): the emitted operation carries the client's identifier and
+   exactly the sequence number the abstract system expects next, and the operations to be pushed grow by it.  [IdInv]:
+   the buffer holds the operations issued so far with sequence numbers 1, 2, ...; sequence numbers far from wrapping. *)
+Theorem C05_wired_local_call_is_abstract_local_step : forall (St call ret J : Type) (k_validate : St -> call -> bool)
+    (k_local : St -> call -> opid -> lres St ret),
+  (forall s c i s' o r, k_local s c i = LOk s' o r -> op_id o = i) ->
+  forall (d : dt St call J) c d' r,
+  IdInv St call J d -> (N.of_nat (length (d_buf d)) + 1 < two64)%N ->
+  local_call St call ret J k_validate k_local d c = (d', Done r) ->
+  exists o, d_buf d' = d_buf d ++ [o] /\ d_cp d' = d_cp d /\
+    o_cuid (op_id o) = o_cuid (d_oid d) /\
+    oseq' o = (cseq (d_cp d) + N.of_nat (length (pending St call J d)) + 1)%N /\
+    pending St call J d' = pending St call J d ++ [o] /\ IdInv St call J d'.
+Proof. exact local_call_refines. Qed.
+Print Assumptions C05_wired_local_call_is_abstract_local_step.
